@@ -479,6 +479,7 @@ Inductive case :=
 | KDecHunk (input : bytes)
 | KDecContent (input : bytes)
 | KEncFile (f : fheader) (c : content)
+| KEncFHeader (f : fheader)
 | KRanges (h : hheader)
 | KTrimEnd (s : bytes).            (* str::trim_end, used by the encoder as found *)
 
@@ -502,6 +503,7 @@ Definition run (c : case) : obs :=
   | KDecHunk i => OHunk (decode_hunk i)
   | KDecContent i => OContent (decode_content i)
   | KEncFile f c => OBytes (encode_file (f, c))
+  | KEncFHeader f => OBytes (encode_fheader f)
   | KRanges h => ORanges (a <- line_range (old_no h) (old_sz h) ;;
                           b <- line_range (new_no h) (new_sz h) ;; Ok (a, b))
   | KTrimEnd s => OBytes (Ok (trim_end s))
